@@ -614,7 +614,10 @@ def species_labels(n_min=1, n_max=4, pool=None):
 def grid_rc(nr_max=60, nr_min=3):
     """(cutoff, nr): round and non-round cutoffs, mostly small tables and occasionally big ones"""
     cut = st.one_of(st.sampled_from([1.0, 2.5, 5.0, 6.5, 10.0, 12.0]), fl(0.5, 20.0))
-    nr = st.one_of(st.integers(nr_min, max(nr_min, min(12, nr_max))), st.integers(nr_min, nr_max))
+    # sampled_from for the small sizes: st.integers() returns its lower bound far more often than any other value
+    small = list(range(nr_min, max(nr_min, min(12, nr_max)) + 1))
+    small = small[len(small) // 2:] + small[:len(small) // 2]      # Hypothesis favours the first element: a middling size
+    nr = st.one_of(st.sampled_from(small), st.integers(min(nr_min + 4, nr_max), nr_max))
     return st.tuples(cut, nr)
 
 
